@@ -434,6 +434,7 @@ impl Report {
         let merged: Mutex<(Stats, Vec<(u64, Failure)>)> = Mutex::new((Stats::default(), vec![]));
         let threads = worker_threads();
         let block = (n / (threads as u64 * 16)).clamp(1, 1 << 16);
+        let survey = std::env::var("VERIF_SURVEY").is_ok();
         let kf = &self.kf;
         let id = self.id;
         let strict = self.strict;
@@ -451,6 +452,10 @@ impl Report {
                         for i in lo..(lo + block).min(n) {
                             let mut case = Case { stats: &mut stats, counting: true, kf, property: id, strict };
                             if let Err(e) = f(i, &mut case) {
+                                if survey {
+                                    *stats.labels.entry(format!("FAIL:{}", e.clause)).or_default() += 1;
+                                    continue;
+                                }
                                 fails.push((i, e));
                                 stop.store(true, Ordering::SeqCst);
                                 break 'outer;
